@@ -4,7 +4,7 @@
     reached from any top-level call or creation by any number of steps. *)
 From Coq Require Import List ZArith NArith Bool.
 From Kardia Require Import C10.U256 C10.EVM C10.ProofsArith C10.ProofsTables C10.ProofsInv C10.ProofsFrames
-  C10.ProofsStatic C10.ProofsGas Generated.C10Facts.
+  C10.ProofsStatic C10.ProofsGas C10.ProofsTerm Generated.C10Facts.
 Import ListNotations.
 Local Open Scope Z_scope.
 
@@ -98,6 +98,44 @@ Theorem C10_gas_never_negative : forall keccak blockhash e c, reachable_g keccak
     (forall o ret g, c_status c = Final o ret g -> 0 <= g).
 Proof. exact gas_never_negative. Qed.
 Print Assumptions C10_gas_never_negative.
+
+(** the total gas held by a configuration (sum over the live frames, or the final leftover) never
+    increases *)
+Theorem C10_gas_monotone : forall keccak blockhash e c,
+    reachable_g keccak blockhash e c -> total_gas (step keccak blockhash e c) <= total_gas c.
+Proof. exact gas_monotone. Qed.
+Print Assumptions C10_gas_monotone.
+
+(** every step of a running configuration either stops at an unsupported precompile call or strictly
+    decreases [total gas + number of frames] — from "every present non-halting opcode costs >= 1,
+    frame-creating opcodes >= 2" on the generated tables (C10_tables_consistent) *)
+Theorem C10_step_bound : forall keccak blockhash e c,
+    reachable_g keccak blockhash e c -> c_status c = Running ->
+    c_status (step keccak blockhash e c) = Unsupported \/
+    phi (step keccak blockhash e c) + 1 <= phi c.
+Proof. exact step_bound. Qed.
+Print Assumptions C10_step_bound.
+
+(** hence a top-level call with [g] gas is over after at most g + 2 steps (termination) ... *)
+Theorem C10_call_terminates : forall keccak blockhash e w t input g v, 0 <= g ->
+    is_final (run_n keccak blockhash e (Z.to_nat (g + 2)) (init_call e w t input g v)) = true.
+Proof. exact call_terminates. Qed.
+Print Assumptions C10_call_terminates.
+Theorem C10_create_terminates : forall keccak blockhash e w init g v, 0 <= g ->
+    is_final (run_n keccak blockhash e (Z.to_nat (g + 2)) (init_create keccak e w init g v)) = true.
+Proof. exact create_terminates. Qed.
+Print Assumptions C10_create_terminates.
+
+(** ... and the fuel of the extracted runner (2^64 steps) always suffices for uint64 gas: it never
+    returns "out of fuel" *)
+Theorem C10_total : forall keccak blockhash e w t input g v, 0 <= g < 2 ^ 64 - 1 ->
+    is_final (run_call keccak blockhash e w t input g v) = true.
+Proof. exact run_call_terminates. Qed.
+Print Assumptions C10_total.
+Theorem C10_total_create : forall keccak blockhash e w init g v, 0 <= g < 2 ^ 64 - 1 ->
+    is_final (run_create keccak blockhash e w init g v) = true.
+Proof. exact run_create_terminates. Qed.
+Print Assumptions C10_total_create.
 
 (** arithmetic against the mathematical definitions *)
 Theorem C10_sdiv_spec : forall a b, is_word a -> is_word b -> b <> 0 ->
